@@ -90,10 +90,13 @@ Inductive cop :=
 | CWrite (n : N)                         (* n acknowledged write requests (each allocates one revision) *)
 | CUncertain                             (* one write whose commit outcome is unknown: enters the retry queue *)
 | CCompact (r : N) (nranges : nat) (commit_ok : bool)
+| CCompact2 (r : N) (nranges : nat)      (* Compact through a second Backend on the same store (same committed
+                                            revision, empty retry queue) *)
 | CList (rev : N) (limit : N)            (* Backend.List, valid range *)
 | CCount                                 (* Backend.Count (etcd compatibility on): always at the committed revision *)
 | CScanCount (rev : N)                   (* scanner.Count at an explicit revision *)
-| CStream (rev : N).                     (* Backend.ListByStream *)
+| CStream (rev : N)                      (* Backend.ListByStream over the whole range *)
+| CStreamPart (rev : N).                 (* Backend.ListByStream once per advertised partition *)
 
 Inductive cobs :=
 | OWrite
@@ -107,10 +110,14 @@ Definition cstep (s : cstate) (op : cop) : cstate * cobs :=
       let rev := c_cur s + 1 in
       (mkC rev (if c_retry s =? 0 then rev else c_retry s) (c_rec s), OWrite)
   | CCompact r n ok => let '(s', (h, res)) := backend_compact s r n ok in (s', OCompact h res)
+  | CCompact2 r n =>
+      let '(s', (h, res)) := backend_compact (mkC (c_cur s) 0 (c_rec s)) r n true in
+      (mkC (c_cur s) (c_retry s) (c_rec s'), OCompact h res)
   | CList rev _ => (s, ORead (race_read (c_rec s) (eff_rev (c_cur s) rev)))
   | CCount => (s, ORead (race_read (c_rec s) (c_cur s)))
   | CScanCount rev => (s, ORead (race_read (c_rec s) rev))
   | CStream rev => (s, ORead (race_read (c_rec s) (eff_rev (c_cur s) rev)))
+  | CStreamPart rev => (s, ORead (race_read (c_rec s) (eff_rev (c_cur s) rev)))
   end.
 
 Fixpoint crun (s : cstate) (ops : list cop) : cstate :=
